@@ -7,6 +7,7 @@
 //   fill <byte> <n> | plant <offset> <hex> | buf <hex>
 //   scan <timeout_s> <too_many_answer> <too_slow_answer> [flags]     yr_rules_scan_mem (answers: 0 continue 1 abort 2 error)
 //   scanner | stimeout <s> | sscan <too_many_answer> <too_slow_answer>   scanner-level, scanner reused
+//   blocks <size> <n> <sleep_us> | bscan | rbscan <timeout_s>   mem_blocks entry points over a (sleeping) iterator
 //   smoke                                       fresh compile + scan of a fixed rule: the library is still usable
 // Every scan is timed with clock_gettime(CLOCK_MONOTONIC) and prints ms=<elapsed>.
 #include "hcommon.h"
@@ -164,6 +165,23 @@ static void smoke(HL* s)
   fprintf(o, "smoke create=%d errors=%d getrules=%d scan=%d match=%d\n", rc, e, rc2, rc3, s->smoke_match);
 }
 
+// ---- block iterator: <nblocks> blocks of <size> bytes (all 'a'), `next` sleeps <sleep_us> microseconds per block
+static struct { uint8_t* data; size_t size; long n, pos; long sleep_us; YR_MEMORY_BLOCK blk; } BI;
+static const uint8_t* bi_fetch(YR_MEMORY_BLOCK* b) { return BI.data; }
+static YR_MEMORY_BLOCK* bi_get(YR_MEMORY_BLOCK_ITERATOR* it)
+{
+  it->last_error = ERROR_SUCCESS;
+  if (BI.pos >= BI.n) return NULL;
+  if (BI.sleep_us > 0) usleep((useconds_t) BI.sleep_us);
+  BI.blk.base = (uint64_t) BI.pos * BI.size;
+  BI.blk.size = BI.size;
+  BI.blk.context = NULL;
+  BI.blk.fetch_data = bi_fetch;
+  return &BI.blk;
+}
+static YR_MEMORY_BLOCK* bi_first(YR_MEMORY_BLOCK_ITERATOR* it) { BI.pos = 0; return bi_get(it); }
+static YR_MEMORY_BLOCK* bi_next(YR_MEMORY_BLOCK_ITERATOR* it) { BI.pos++; return bi_get(it); }
+
 static void do_scan_report(HL* s, const char* what, int rc, long ms)
 {
   fprintf(s->out, " | %s rc=%d ms=%ld many=%d:%s slow=%d:%s\n", what, rc, ms, s->nmany, s->many[0] ? s->many : "-",
@@ -285,6 +303,32 @@ static void do_cmd(HL* s, char* line)
     // high-water mark of simultaneously live regexp fibers (fibers are recycled through the pool's free list)
     fprintf(o, " fibers=%d", s->scanner->re_fiber_pool.fiber_count);
     do_scan_report(s, "sscan", rc, ms);
+  }
+  else if (!strcmp(c, "blocks"))
+  {
+    // blocks <size> <nblocks> <sleep_us>
+    BI.size = (size_t) strtoull(tok(&p), NULL, 10);
+    BI.n = atol(tok(&p));
+    BI.sleep_us = atol(tok(&p));
+    free(BI.data);
+    BI.data = (uint8_t*) malloc(BI.size + 1);
+    memset(BI.data, 'a', BI.size);
+  }
+  else if (!strcmp(c, "bscan") || !strcmp(c, "rbscan"))
+  {
+    // bscan: yr_scanner_scan_mem_blocks on the current scanner (stimeout before); rbscan <timeout>: yr_rules_scan_mem_blocks
+    YR_MEMORY_BLOCK_ITERATOR it;
+    memset(&it, 0, sizeof it);
+    it.first = bi_first; it.next = bi_next; it.file_size = NULL; it.last_error = ERROR_SUCCESS;
+    s->ans_many = s->ans_slow = 0;
+    s->nmany = s->nslow = 0; s->many[0] = s->slow[0] = 0;
+    fprintf(o, "scan");
+    long t0 = now_ms();
+    int rc = c[0] == 'b' ? yr_scanner_scan_mem_blocks(s->scanner, &it)
+                         : yr_rules_scan_mem_blocks(s->rules, &it, 0, scan_cb, s, atoi(tok(&p)));
+    long ms = now_ms() - t0;
+    fprintf(o, " blocks_delivered=%ld", BI.pos);
+    do_scan_report(s, c, rc, ms);
   }
   else if (!strcmp(c, "smoke")) smoke(s);
   else if (*c) fprintf(o, "unknown command %s\n", c);
